@@ -13,6 +13,16 @@ from symrun import engine as E
 from symrun import hook
 
 _athlib = None
+_plain = (None, None)
+
+
+def plain():
+    """the plain-library worker of THIS process (never shared across fork())"""
+    global _plain
+    import os
+    if _plain[0] != os.getpid():
+        _plain = (os.getpid(), core.PlainWorker())
+    return _plain[1]
 
 
 def load_athlib(shims=None, extra_namespace=None):
@@ -227,7 +237,7 @@ class Runner:
                 ok = False
         if ok:
             self.res.witness_replays += 1
-        elif self.eng.float_mode == 'R' and (self.eng.r_apps or self.eng.pw_apps):
+        elif (self.eng.float_mode == 'R' and (self.eng.r_apps or self.eng.pw_apps)) or self.eng.overapprox_used:
             # the reals-with-rounding model over-approximates doubles: a model may pick any rounding the
             # axioms allow, so a concrete value that went through R()/PW() need not equal the real one
             self.res.extra['witness_values_through_float_abstraction_not_compared'] = \
